@@ -2,8 +2,8 @@
    AllMoves has at most 3 entries for an empty square and at most 12 * height entries for a stack (boards up to 5x5: the number of
    drop sequences per square is computed for every size, square and carry limit), hence at most 3 * 25 + 12 * (pieces on the board)
    <= 687 entries when the game has at most 51 pieces; and with at most 64 pieces no stack can exceed 64.
-   NOT true in general: a 6x6 position with ten stacks of six owned by the mover has more than 1200 generated moves - the bound 690
-   is a limit of the MODEL's loop fuel (Search.v: 700), not of the Go code, which appends to a slice. *)
+   (The bound on the number of generated moves proved here - all_moves_small - was needed while the model's loops had a constant
+   fuel of 700; the loops are now bounded by the node's own move count (Search.gfuel), so [within] only asks for the 64 limit.) *)
 From Coq Require Import NArith ZArith Arith List Bool Lia ZifyN ZifyNat.
 Require Import Board Stack Rules Move GameOver Refine RefinePlace RefinePlace2 Slide2 Slide3 Slide6 MoveRefines Preserve1 Preserve5 Preserve6.
 Require Import Search SearchNeg2.
@@ -123,13 +123,15 @@ Proof.
 Qed.
 
 (* ---- within ---- *)
-Theorem within_small : forall d p, pos_ok p -> (size p <= 5)%N -> (total p <= 51)%N -> within d p.
+(* with at most 64 pieces in the game no stack can exceed 64: every board size (the standard sets of 3x3..6x6 have 20, 30, 44, 62) *)
+Theorem within_total64 : forall d p, pos_ok p -> (total p <= 64)%N -> within d p.
 Proof.
-  induction d; intros p Hp Hs Ht; [exact I|]. intros _. split.
-  - destruct Hp as [S3 [LH _ _] _ _]. cbn [bview bhs] in LH. unfold nsq in LH.
-    pose proof (all_moves_small p ltac:(lia) LH). unfold total in Ht. lia.
-  - intros m q E.
-    destruct (move_preserves_small p m q Hp ltac:(lia) (mv_not_pass p m q E) E) as (_ & Hq & ST).
-    split; [apply total_heights64; rewrite (st_total _ _ ST); lia|].
-    apply IHd; [exact Hq|rewrite (st_size _ _ ST); exact Hs|rewrite (st_total _ _ ST); exact Ht].
+  induction d; intros p Hp Ht; [exact I|]. intros _.
+  intros m q E.
+  destruct (move_preserves_small p m q Hp Ht (mv_not_pass p m q E) E) as (_ & Hq & ST).
+  split; [apply total_heights64; rewrite (st_total _ _ ST); exact Ht|].
+  apply IHd; [exact Hq|rewrite (st_total _ _ ST); exact Ht].
 Qed.
+
+Theorem within_small : forall d p, pos_ok p -> (size p <= 5)%N -> (total p <= 51)%N -> within d p.
+Proof. intros d p Hp _ Ht. apply within_total64; [exact Hp|lia]. Qed.
